@@ -302,11 +302,24 @@ theorem no_leak_on_failure (size : Nat) (op : Prim) (p : OPdu) (ol : List Opt) (
 
 /-! ## the send path -/
 
+/-- coap_send_pdu DELAYS the message (coap_session_delay_pdu) instead of writing it: the session is not established yet
+(DTLS handshake, TCP connect, CSM pending) — whatever the type of the message —, or it is a CON and the NSTART slots are
+taken -/
+def MustDelay (con : Bool) (s : Sess) : Prop := s.established = false ∨ (con = true ∧ s.conActive ≥ s.nstart)
+
+instance (con : Bool) (s : Sess) : Decidable (MustDelay con s) := by unfold MustDelay; exact inferInstance
+
+theorem sendInternal_cond (con : Bool) (s : Sess) :
+    (¬ (s.established = true) ∨ (con = true ∧ s.conActive ≥ s.nstart)) ↔ MustDelay con s := by
+  unfold MustDelay
+  cases s.established <;> simp
+
 /-- **send_consumes_pdu**: whatever the oracle answers, whatever the socket does, whatever the state of the session
-(NSTART slot free or not), `coap_send` ends in exactly one of two ways: the PDU has been released (`coap_delete_pdu`
-ran exactly once on it: the trace grows by `free bufId, free id` and by nothing else that mentions them) and no queue
-holds it; or it has NOT been released and exactly one new queue node owns it.  `COAP_INVALID_MID` is returned only in
-the first way: a PDU given to coap_send is consumed even on failure. -/
+(established or not, NSTART slot free or not), `coap_send` ends in exactly one of two ways: the PDU has been released
+(`coap_delete_pdu` ran exactly once on it: the trace grows by `free bufId, free id` and by nothing else that mentions them)
+and no queue holds it; or it has NOT been released and exactly one new queue node owns it.  `COAP_INVALID_MID` is returned
+only in the first way: a PDU given to coap_send is consumed even on failure — in particular when the message has to be
+DELAYED and the delay-queue node cannot be allocated. -/
 theorem send_consumes_pdu (con : Bool) (p : OPdu) (s : Sess) (h : Heap) :
     let r := send con p s h
     ( -- released, not queued
@@ -315,8 +328,8 @@ theorem send_consumes_pdu (con : Bool) (p : OPdu) (s : Sess) (h : Heap) :
     ( -- kept: exactly one new node, which owns it; nothing freed
       (r.1 = .queued ∨ r.1 = .delayed) ∧
         ∃ n, r.2.2.live = n :: h.live ∧ r.2.2.trace = h.trace ++ [.alloc n] ∧
-          ((r.2.1.sendq = s.sendq ++ [⟨n, p⟩] ∧ r.2.1.delayq = s.delayq) ∨
-           (r.2.1.delayq = s.delayq ++ [⟨n, p⟩] ∧ r.2.1.sendq = s.sendq)) ) := by
+          ((r.1 = .queued ∧ r.2.1.sendq = s.sendq ++ [⟨n, p, con⟩] ∧ r.2.1.delayq = s.delayq) ∨
+           (r.1 = .delayed ∧ r.2.1.delayq = s.delayq ++ [⟨n, p, con⟩] ∧ r.2.1.sendq = s.sendq)) ) := by
   intro r
   show _ ∨ _
   simp only [r]
@@ -336,7 +349,7 @@ theorem send_consumes_pdu (con : Bool) (p : OPdu) (s : Sess) (h : Heap) :
           right
           have hl := (alloc_ok_live h n (by rw [ha])); rw [ha] at hl
           have ht := alloc_ok_trace h n (by rw [ha]); rw [ha] at ht
-          exact ⟨Or.inr rfl, n, hl.2, ht, Or.inr ⟨rfl, rfl⟩⟩
+          exact ⟨Or.inr rfl, n, hl.2, ht, Or.inr ⟨rfl, rfl, rfl⟩⟩
     · split
       · left; exact ⟨Or.inr rfl, rfl, rfl, h, rfl, rfl, rfl⟩
       · split
@@ -352,7 +365,96 @@ theorem send_consumes_pdu (con : Bool) (p : OPdu) (s : Sess) (h : Heap) :
               right
               have hl := (alloc_ok_live h n (by rw [ha])); rw [ha] at hl
               have ht := alloc_ok_trace h n (by rw [ha]); rw [ha] at ht
-              exact ⟨Or.inl rfl, n, hl.2, ht, Or.inl ⟨rfl, rfl⟩⟩
+              exact ⟨Or.inl rfl, n, hl.2, ht, Or.inl ⟨rfl, rfl, rfl⟩⟩
+
+theorem pduDelete_trace (p : OPdu) (h : Heap) : (pduDelete p h).trace = h.trace ++ [.free p.bufId, .free p.id] := by
+  simp [pduDelete, Heap.free]
+
+/-- **send_pdu_consumed_exactly_once** — for EVERY allocation oracle, every session state and every PDU, the ledger events
+`coap_send` adds are exactly one of: `free buffer, free header` (the PDU was SENT and released, or REFUSED — COAP_INVALID_MID —
+and released: once, by coap_send_internal's own exit, and no queue refers to it), or `alloc n` with `n` the node that now
+owns the PDU in the send queue (QUEUED for retransmission) or in the session's delay queue (DELAYED).  Nothing else is
+allocated or released, so the PDU handed to coap_send is consumed exactly once whichever way the call goes. -/
+theorem send_pdu_consumed_exactly_once (con : Bool) (p : OPdu) (s : Sess) (h : Heap) :
+    let r := send con p s h
+    (r.2.2.trace = h.trace ++ [.free p.bufId, .free p.id] ∧ (r.1 = .sentFreed ∨ r.1 = .error) ∧
+        r.2.1.sendq = s.sendq ∧ r.2.1.delayq = s.delayq) ∨
+    (∃ n, r.2.2.trace = h.trace ++ [.alloc n] ∧
+        ((r.1 = .queued ∧ r.2.1.sendq = s.sendq ++ [⟨n, p, con⟩] ∧ r.2.1.delayq = s.delayq) ∨
+         (r.1 = .delayed ∧ r.2.1.delayq = s.delayq ++ [⟨n, p, con⟩] ∧ r.2.1.sendq = s.sendq))) := by
+  intro r
+  rcases send_consumes_pdu con p s h with ⟨ho, hs, hd, hm, he, ht, _⟩ | ⟨_, n, _, ht, hq⟩
+  · left
+    refine ⟨?_, ho, hs, hd⟩
+    show (send con p s h).2.2.trace = _
+    rw [he, pduDelete_trace, ht]
+  · right; exact ⟨n, ht, hq⟩
+
+/-- **send_delayed_iff** — the DELAYED outcome: exactly when the token fits, coap_send_pdu has to delay the message and the
+oracle grants the delay-queue node -/
+theorem send_delayed_iff (con : Bool) (p : OPdu) (s : Sess) (h : Heap) :
+    (send con p s h).1 = .delayed ↔ (p.tokLen ≤ s.maxTok ∧ MustDelay con s ∧ h.orc.head = true) := by
+  unfold send
+  split
+  · rename_i ht; constructor
+    · intro hx; cases hx
+    · intro hx; omega
+  · rename_i ht
+    unfold sendInternal
+    by_cases hd : MustDelay con s
+    · rw [if_pos ((sendInternal_cond con s).mpr hd)]
+      unfold Heap.alloc
+      cases hh : h.orc.head <;> simp [hd]
+      omega
+    · rw [if_neg (fun hx => hd ((sendInternal_cond con s).mp hx))]
+      constructor
+      · intro hx
+        exfalso
+        revert hx
+        split
+        · intro hx; cases hx
+        · split
+          · intro hx; cases hx
+          · cases h.alloc with
+            | mk a h1 => cases a <;> (intro hx; cases hx)
+      · intro hx; exact absurd hx.2.1 hd
+
+/-- **delayed_send_node_failure_releases_once** — the case seeded C18-16 corrupts: the message has to be delayed and the
+request for the delay-queue node is refused.  The call returns COAP_INVALID_MID, the session (both queues, `con_active`) is
+exactly as before, ONE request was made, and the ledger grows by exactly `free buffer, free header`: the PDU is released once
+(by coap_send_internal's `error:` exit; coap_session_delay_pdu itself releases nothing). -/
+theorem delayed_send_node_failure_releases_once (con : Bool) (p : OPdu) (s : Sess) (h : Heap)
+    (ht : p.tokLen ≤ s.maxTok) (hd : MustDelay con s) (hf : h.orc.head = false) :
+    (send con p s h).1 = .error ∧ (send con p s h).2.1 = s ∧
+    (send con p s h).2.2.trace = h.trace ++ [.free p.bufId, .free p.id] ∧
+    (send con p s h).2.2.live = (h.live.erase p.bufId).erase p.id ∧
+    (send con p s h).2.2.reqs = h.reqs + 1 := by
+  unfold send
+  have : ¬ p.tokLen > s.maxTok := by omega
+  simp only [this, if_false]
+  unfold sendInternal
+  rw [if_pos ((sendInternal_cond con s).mpr hd)]
+  unfold Heap.alloc
+  simp [hf, pduDelete, Heap.free]
+
+/-- … and with memory available the same delayed send is accepted: one node, appended to the delay queue, owns the PDU;
+nothing is released, `con_active` and the send queue are untouched -/
+theorem delayed_send_succeeds_with_memory (con : Bool) (p : OPdu) (s : Sess) (h : Heap)
+    (ht : p.tokLen ≤ s.maxTok) (hd : MustDelay con s) (hf : h.orc.head = true) :
+    (send con p s h).1 = .delayed ∧ (send con p s h).2.1 = { s with delayq := s.delayq ++ [⟨h.next, p, con⟩] } ∧
+    (send con p s h).2.2.trace = h.trace ++ [.alloc h.next] ∧ (send con p s h).2.2.live = h.next :: h.live := by
+  unfold send
+  have : ¬ p.tokLen > s.maxTok := by omega
+  simp only [this, if_false]
+  unfold sendInternal
+  rw [if_pos ((sendInternal_cond con s).mpr hd)]
+  unfold Heap.alloc
+  simp [hf]
+
+-- the hypotheses are satisfiable: NSTART slot taken / session not established, oracle refusing the next request
+example : MustDelay true { conActive := 1 } ∧ MustDelay false { established := false } ∧ ¬ MustDelay false { conActive := 1 } := by decide
+example : (send true ⟨1, 2, 8, 8, [], 0, 0, none⟩ { conActive := 1 } { orc := [false], next := 3, live := [2, 1] }).1 = .error ∧
+    (send true ⟨1, 2, 8, 8, [], 0, 0, none⟩ { conActive := 1 } { orc := [false], next := 3, live := [2, 1] }).2.2.live = [] := by decide
 
 /-- a failed send gives the NSTART slot back (after the fix: `con_active` is what it was) -/
 theorem send_error_keeps_slot (con : Bool) (p : OPdu) (s : Sess) (h : Heap) (he : (send con p s h).1 = .error) :
@@ -380,6 +482,90 @@ theorem send_error_keeps_slot (con : Bool) (p : OPdu) (s : Sess) (h : Heap) (he 
           simp only [hn, if_false] at he
           cases ha : h.alloc with
           | mk a h1 => cases a <;> simp_all
+
+/-! ### the delay queue is drained (coap_session_connected) -/
+
+theorem replays_nodeDelete (q : Node) (h : Heap) (hr : h.Replays) : (nodeDelete q h).Replays :=
+  replays_free _ _ (replays_free _ _ (replays_free _ _ hr))
+
+theorem replays_foldNodeDelete (l : List Node) (h : Heap) (hr : h.Replays) :
+    (l.foldl (fun h q => nodeDelete q h) h).Replays := by
+  induction l generalizing h with
+  | nil => exact hr
+  | cons q r ih => exact ih _ (replays_nodeDelete q h hr)
+
+theorem drain_cons_blocked (q : Node) (rest : List Node) (s : Sess) (h : Heap) (hb : q.con = true ∧ s.conActive ≥ s.nstart) :
+    drain (q :: rest) s h = ({ s with delayq := q :: rest }, h) := by
+  unfold drain; rw [if_pos hb]
+
+theorem drain_cons_con (q : Node) (rest : List Node) (s : Sess) (h : Heap) (hc : q.con = true)
+    (hb : ¬ (q.con = true ∧ s.conActive ≥ s.nstart)) :
+    drain (q :: rest) s h =
+      if s.writeOk = false then ({ s with conActive := s.conActive + 1, sendq := s.sendq ++ [q], delayq := rest }, h)
+      else drain rest { s with conActive := s.conActive + 1, sendq := s.sendq ++ [q] } h := by
+  rw [drain, if_neg hb]; simp only [hc, if_true]
+
+theorem drain_cons_non (q : Node) (rest : List Node) (s : Sess) (h : Heap) (hc : q.con = false) :
+    drain (q :: rest) s h =
+      if s.writeOk = false then ({ s with delayq := rest }, nodeDelete q h) else drain rest s (nodeDelete q h) := by
+  rw [drain, if_neg (by simp [hc])]; simp [hc]
+
+/-- **connected_drain_spec** — coap_session_connected's loop over the delay queue, for every queue and every session state:
+the queue splits into the nodes `taken` off its head and the nodes `kept`; the CONs among the taken ones are in the send
+queue afterwards — the SAME nodes, still owning their PDUs, each counted in `con_active` —, every other taken node has been
+released with its PDU exactly once (coap_delete_node_lkd, in queue order), and nothing else has happened to the ledger: no
+request is made.  So a PDU that coap_send delayed is, after any number of drains, still owned by exactly one node or has
+been released exactly once. -/
+theorem connected_drain_spec (dq : List Node) (s : Sess) (h : Heap) :
+    ∃ taken kept, dq = taken ++ kept ∧ (drain dq s h).1.delayq = kept ∧
+      (drain dq s h).1.sendq = s.sendq ++ taken.filter (·.con) ∧
+      (drain dq s h).1.conActive = s.conActive + (taken.filter (·.con)).length ∧
+      (drain dq s h).2 = (taken.filter (fun q => !q.con)).foldl (fun h q => nodeDelete q h) h := by
+  induction dq generalizing s h with
+  | nil => exact ⟨[], [], rfl, rfl, by simp [drain], by simp [drain], by simp [drain]⟩
+  | cons q rest ih =>
+    by_cases hb : q.con = true ∧ s.conActive ≥ s.nstart
+    · rw [drain_cons_blocked q rest s h hb]
+      exact ⟨[], q :: rest, rfl, rfl, by simp, by simp, by simp⟩
+    · cases hc : q.con with
+      | true =>
+        rw [drain_cons_con q rest s h hc hb]
+        split
+        · exact ⟨[q], rest, rfl, rfl, by simp [hc], by simp [hc], by simp [hc]⟩
+        · obtain ⟨taken, kept, h1, h2, h3, h4, h5⟩ :=
+            ih { s with conActive := s.conActive + 1, sendq := s.sendq ++ [q] } h
+          refine ⟨q :: taken, kept, by rw [h1]; rfl, h2, ?_, ?_, ?_⟩
+          · rw [h3]; simp [hc]
+          · rw [h4]; simp [hc]; omega
+          · rw [h5]; simp [hc]
+      | false =>
+        rw [drain_cons_non q rest s h hc]
+        split
+        · exact ⟨[q], rest, rfl, rfl, by simp [hc], by simp [hc], by simp [hc]⟩
+        · obtain ⟨taken, kept, h1, h2, h3, h4, h5⟩ := ih s (nodeDelete q h)
+          refine ⟨q :: taken, kept, by rw [h1]; rfl, h2, ?_, ?_, ?_⟩
+          · rw [h3]; simp [hc]
+          · rw [h4]; simp [hc]
+          · rw [h5]; simp [hc]
+
+theorem foldNodeDelete_reqs (l : List Node) (h : Heap) : (l.foldl (fun h q => nodeDelete q h) h).reqs = h.reqs := by
+  induction l generalizing h with
+  | nil => rfl
+  | cons q r ih => simp only [List.foldl_cons]; rw [ih (nodeDelete q h)]; simp [nodeDelete, pduDelete, Heap.free]
+
+/-- the drain makes no allocation request and keeps the ledger invariant -/
+theorem drain_reqs_replays (dq : List Node) (s : Sess) (h : Heap) :
+    (drain dq s h).2.reqs = h.reqs ∧ (h.Replays → (drain dq s h).2.Replays) := by
+  obtain ⟨taken, kept, _, _, _, _, h5⟩ := connected_drain_spec dq s h
+  rw [h5]
+  exact ⟨foldNodeDelete_reqs _ h, replays_foldNodeDelete _ h⟩
+
+example :
+    let q1 : Node := ⟨3, ⟨1, 2, 8, 8, [], 0, 0, none⟩, false⟩
+    let q2 : Node := ⟨6, ⟨4, 5, 8, 8, [], 0, 0, none⟩, true⟩
+    let q3 : Node := ⟨9, ⟨7, 8, 8, 8, [], 0, 0, none⟩, true⟩
+    let r := connected { established := false, delayq := [q1, q2, q3] } { orc := [], next := 10, live := [9, 8, 7, 6, 5, 4, 3, 2, 1] }
+    r.1.delayq = [q3] ∧ r.1.sendq = [q2] ∧ r.1.conActive = 1 ∧ r.2.live = [9, 8, 7, 6, 5, 4] ∧ r.2.ok = true := by decide
 
 /-! ## with memory available the same operation succeeds -/
 
@@ -476,15 +662,15 @@ theorem next_op_succeeds (h : Heap) (ho : AllTrue h.orc) :
 /-- **alloc_count_matches**: the number of allocation REQUESTS each helper makes, as a function of what happens — the
 numbers the differential run compares with the real code for every script and every failing index:
 coap_pdu_init 1 (first request refused, or size too large: the request is made before the size test) or 2;
-coap_pdu_resize 1 iff it must grow and may (else 0); optlist node, string: 1; coap_send: 1 for a CON that reaches
-coap_new_node (sent or delayed), 0 otherwise. -/
+coap_pdu_resize 1 iff it must grow and may (else 0); optlist node, string: 1; coap_send: 1 for a message that is delayed
+(any type: the delay-queue node) or a CON that is written and reaches coap_new_node, 0 otherwise. -/
 theorem alloc_count_matches (h : Heap) :
     (∀ size, (pduInit size h).2.reqs = h.reqs + (if h.orc.head = false ∨ size > 8388864 - 6 then 1 else 2)) ∧
     (∀ p n, (resize p n h).2.2.reqs = h.reqs + (if n > p.allocSize ∧ ¬ (p.maxSize ≠ 0 ∧ n > p.maxSize) then 1 else 0)) ∧
     (∀ ol num v, (optlistAdd ol num v h).2.2.reqs = h.reqs + 1) ∧
     ((newString h).2.reqs = h.reqs + 1) ∧
     (∀ con p s, (send con p s h).2.2.reqs = h.reqs +
-        (if p.tokLen > s.maxTok then 0 else if con = true ∧ s.conActive ≥ s.nstart then 1
+        (if p.tokLen > s.maxTok then 0 else if MustDelay con s then 1
          else if s.writeOk = false then 0 else if con = false then 0 else 1)) := by
   refine ⟨?_, ?_, ?_, alloc_reqs h, ?_⟩
   · intro size
@@ -534,8 +720,9 @@ theorem alloc_count_matches (h : Heap) :
       cases ha : h.alloc with
       | mk r h1 =>
         rw [ha] at hreq; simp only at hreq
-        cases con <;> cases hw : s.writeOk <;> by_cases hc : s.conActive ≥ s.nstart <;>
-          cases r <;> simp [hc, hreq, pduDelete, Heap.free]
+        unfold MustDelay
+        cases con <;> cases hw : s.writeOk <;> by_cases he : s.established = true <;> by_cases hc : s.conActive ≥ s.nstart <;>
+          cases r <;> simp [hc, he, hreq, pduDelete, Heap.free]
 
 /-! ## Observe registrations (coap_add_observer / coap_delete_observer): ledger invariant -/
 
@@ -1524,6 +1711,11 @@ theorem script_ledger_ok (st : St) (ops : List HOp) (hr : st.heap.Replays) :
                   | none => exact rp_del p _ ha
                   | some n => exact ha
     | write ok => exact hr
+    | estab up =>
+      unfold St.step
+      cases up with
+      | false => exact hr
+      | true => exact (drain_reqs_replays st.sess.delayq _ st.heap).2 hr
     | obsAdd toklen =>
       unfold St.step
       cases hp : st.pdu with
